@@ -24,6 +24,7 @@ func main() {
 	replay := flag.String("replay", "", "replay file: re-run the property and tier recorded in it")
 	dump := flag.String("dump", "", "debug: dump roles|stores:<func>")
 	list := flag.Bool("list", false, "print the registered properties as JSON")
+	outDir := flag.String("out", "", "directory for evidence/ and reports/ (default: the verif directory); used by the self-test tooling so that runs against scratch trees do not overwrite evidence")
 	flag.Parse()
 	if *list {
 		type entry struct {
@@ -104,7 +105,11 @@ func main() {
 	}
 	exit := 0
 	for _, id := range ids {
-		code := runProperty(id, *tier, vdir, known, seed, getModel, models)
+		od := vdir
+		if *outDir != "" {
+			od = *outDir
+		}
+		code := runProperty(id, *tier, od, known, seed, getModel, models)
 		if code > exit {
 			exit = code
 		}
